@@ -28,7 +28,12 @@ def run_batches(o, binary, batches, pid_tag):
     """batches: list of (name, cases, gates). Runs + judges in parallel; reports divergences. Returns list of traces."""
     def do(b):
         name, cases, gates = b
-        trace = dbrun.run_db_batch(binary, pid_tag + "-" + name, cases, gates=gates, seed=SEED)
+        keys = None
+        if name.startswith("long-") and name[-1] in "13579":
+            # key concretization for every other long program: 300-byte keys, non-UTF-8 keys
+            n = int(name[-1])
+            keys = [(b"\xff\xfe" if n % 4 == 1 else b"K" * 300) + b"%02d" % i for i in range(16)]
+        trace = dbrun.run_db_batch(binary, pid_tag + "-" + name, cases, gates=gates, seed=SEED, keys=keys)
         nok, bad, r = dbrun.judge_db(trace, o, "judge " + name)
         return trace, nok, bad, r
 
@@ -96,6 +101,14 @@ def run(tier):
     many += [{"op": "barrier"}, {"op": "getall", "k": 6}, {"op": "close"}, dbgen.open_step(50, 1 << 30, 1000), {"op": "getall", "k": 6},
              {"op": "put", "k": 1, "v": u.next(), "pad": 5}, {"op": "getall", "k": 6}, {"op": "close"}]
     batches.append(("manygens", [many], False))
+    # > 100 generations: directory names of different digit counts must keep sorting in recency order across restarts
+    many2 = [dbgen.open_step(200, 1 << 30, 1000, mem=1 << 30)]
+    for i in range(104):
+        many2 += [{"op": "put", "k": i % 7, "v": u.next(), "pad": 0}, {"op": "rotate"}]
+    many2 += [{"op": "barrier"}, {"op": "getall", "k": 8}, {"op": "close"}, dbgen.open_step(200, 1 << 30, 1000), {"op": "getall", "k": 8},
+              {"op": "del", "k": 3}, {"op": "put", "k": 1, "v": u.next(), "pad": 0}, {"op": "rotate"}, {"op": "barrier"}, {"op": "getall", "k": 8}, {"op": "close"},
+              dbgen.open_step(3, 1 << 30, 1000), {"op": "compact"}, {"op": "getall", "k": 8}, {"op": "close"}, dbgen.open_step(3, 1 << 30, 1000), {"op": "getall", "k": 8}, {"op": "close"}]
+    batches.append(("manygens100", [many2], False))
 
     kinds = run_batches(o, binary, batches, "C01")
     o.evaluations = sum(len(b[1]) for b in batches)
